@@ -32,3 +32,9 @@ package compression
 //@   at Decompress #1
 //@     assert [only-marked-data-decompressed] len(b) > 1 && b[0] == 0 && b[1] == compressorID(m.compressor)
 //@   ensures [unknown-id-rejected] len(old(b)) > 1 && old(b[0]) == 0 && old(b[1]) != compressorID(m.compressor) ==> err != nil
+
+// C10/C18: the zstd decoder is built from options that do not limit what it accepts, so that every
+// record the (unlimited) encoder produced can be read back after a restart.
+//@ func ZStd
+//@   props C10 C18
+//@   ensures [compressor] result != nil
